@@ -52,6 +52,37 @@ for _p in COMMENTED:
     ast.parse(_p)
 # appended after the shared programs (case ids are positional): comments that look like syntax (trailing backslash, code-like text)
 # and multi-line (f-)strings, with nested f-strings starting on later lines, inside blocks that edits re-indent
+class _M:
+    def __init__(self, text):
+        self.text = text
+
+    def group(self, _=0):
+        return self.text
+
+
+_CMT_CACHE = [None, None]
+
+
+def _cmt(lines, ln):
+    """The comment TOKEN on line `ln` (1-based) of the source `lines` belongs to (a '#' inside a string literal is not a comment);
+    match-like (group(0)) or None."""
+    if _CMT_CACHE[0] is not lines:
+        table = {}
+        toks = O.tokens('\n'.join(lines))
+        if toks is None:  # does not tokenize: fall back to the text
+            for i, l in enumerate(lines, 1):
+                m = re.search(r'#.*$', l)
+                if m:
+                    table[i] = m.group(0)
+        else:
+            for t in toks:
+                if t.type == tokenize.COMMENT:
+                    table[t.start[0]] = t.string
+        _CMT_CACHE[0], _CMT_CACHE[1] = lines, table
+    c = _CMT_CACHE[1].get(ln)
+    return _M(c) if c is not None else None
+
+
 HOSTILE = [
     "x = 1  # c0 \\\ny = 2  # c1 \\\n# c2 \\\nz = 3  # c3 \\\nif a:  # c4 \\\n    b  # c5 \\\n    # c6 \\\n    c  # c7 \\",
     "x = [  # c0 (\n    a,  # c1 '''\n    b,  # c2 ]\n]  # c3 ;\nif a:  # c4 else:\n    b  # c5 \"\nelse:  # c6 if x:\n    c  # c7 #",
@@ -71,6 +102,9 @@ HOSTILE += [
     "x = (a and  # c0\n     b and  # c1\n     # c2\n     c)  # c3\ny = (p <  # c4\n     q <=  # c5\n     r)  # c6",
     "d[a,  # c0\n  b,  # c1\n  # c2\n  c]  # c3\nt = (k,  # c4\n     l)  # c5",
     "match s:  # c0\n    case (a |  # c1\n          b |  # c2\n          c):  # c3\n        pass\n    case [p,  # c4\n          q]:  # c5\n        pass",
+]
+HOSTILE += [  # '#' inside string literals in front of real comments
+    "v = [  # c0\n    '#a',  # c1\n    '# b',  # c2\n]  # c3\nd = {'#k': '#v',  # c4\n     k: \"# w\"}  # c5\nf('#', x)  # c6",
 ]
 for _p in HOSTILE:
     ast.parse(_p)
@@ -174,7 +208,7 @@ def allowed(src, tree, op):
                 break
             i -= 1
         # trailing line comment on the last line
-        m = re.search(r'#.*$', lines[b - 1]) if b - 1 < len(lines) else None
+        m = _cmt(lines, b) if b - 1 < len(lines) else None
         if m and trail != 'none':
             coms.add(m.group(0).strip())
         i = b + 1
@@ -202,7 +236,7 @@ def allowed(src, tree, op):
             lines_ok |= tl
             coms_ok |= tc
             for ln in range(a, b + 1):
-                m = re.search(r'#.*$', lines[ln - 1])
+                m = _cmt(lines, ln)
                 if m:
                     coms_ok.add(m.group(0).strip())  # comments inside the replaced/removed element itself
             par = O.get_path(tree, path[:-1])
@@ -224,7 +258,7 @@ def allowed(src, tree, op):
                 if hl >= 1:
                     for ln in range(hl, a):
                         lines_ok.add(ln)
-                        m = re.search(r'#.*$', lines[ln - 1])
+                        m = _cmt(lines, ln)
                         if m:
                             coms_ok.add(m.group(0).strip())
                     tl, tc = trivia_lines(hl, b)  # the leading trivia of the emptied block hangs off its header line
@@ -241,7 +275,7 @@ def allowed(src, tree, op):
                 tl, tc = trivia_lines(ta, tb)
                 coms_ok |= {c for c in tc}
             for ln in range(ta, tb + 1):
-                m = re.search(r'#.*$', lines[ln - 1])
+                m = _cmt(lines, ln)
                 if m:
                     coms_ok.add(m.group(0).strip())
     elif k in ('put_slice', 'insert'):
@@ -261,7 +295,7 @@ def allowed(src, tree, op):
                 lines_ok |= tl
                 coms_ok |= tc
                 for ln in range(a, b + 1):
-                    m = re.search(r'#.*$', lines[ln - 1])
+                    m = _cmt(lines, ln)
                     if m:
                         coms_ok.add(m.group(0).strip())
                 if op['code'][0] is None and j - i == len(lst) and f in ('orelse', 'finalbody'):
@@ -270,7 +304,7 @@ def allowed(src, tree, op):
                         hl -= 1
                     for ln in range(max(hl, 1), a):
                         lines_ok.add(ln)
-                        m = re.search(r'#.*$', lines[ln - 1])
+                        m = _cmt(lines, ln)
                         if m:
                             coms_ok.add(m.group(0).strip())
                     tl, tc = trivia_lines(max(hl, 1), b)
@@ -306,7 +340,7 @@ def allowed(src, tree, op):
                 tl, tc = trivia_lines(ta, tb)
                 coms_ok |= tc
                 for ln in range(ta, tb + 1):
-                    m = re.search(r'#.*$', lines[ln - 1])
+                    m = _cmt(lines, ln)
                     if m:
                         coms_ok.add(m.group(0).strip())
     elif k == 'put_docstr':
@@ -345,7 +379,7 @@ def allowed(src, tree, op):
             pass  # block statement: the comment lives on the last header line
         lines_ok |= set(range(a, b + 1))
         for ln in range(a, b + 1):
-            m = re.search(r'#.*$', lines[ln - 1])
+            m = _cmt(lines, ln)
             if m:
                 coms_ok.add(m.group(0).strip())  # the comment that is replaced / deleted
     else:
@@ -618,6 +652,10 @@ def check_transition(src, new, op, res, cid, rep, params):
             cnew = collections.Counter(['# ' + op['text']])
         lost = c0 - c1
         bad_lost = [c for c in lost if c.strip() not in coms_ok]
+        if bad_lost and (c1 - c0 - cnew):  # a comment is gone and a comment nobody wrote has appeared: not a plain loss
+            res.fail(cid, 'comment-replaced-by-an-invented-one', f'pre={src!r}\nnew={new!r}\nrequest={E.op_id(op)}\nlost={bad_lost}\n'
+                     f'invented={dict(c1 - c0 - cnew)}', params, rep, E.render(rep['src'], rep['hist']))
+            return False
         if bad_lost:
             params = dict(params, **classify_loss(src, tree, op, bad_lost))
             res.fail(cid, 'comment-lost', f'pre={src!r}\nnew={new!r}\nrequest={E.op_id(op)}\nlost={bad_lost} (permitted by trivia: {sorted(coms_ok)})',
